@@ -1729,7 +1729,8 @@ func (m *LeafList) HasDefault() bool {
 }
 
 func (m *LeafList) DefaultValue() interface{} {
-	return m.Default()
+	// a copy: the value is handed to data, the schema keeps its own
+	return append([]string(nil), m.defaultVals...)
 }
 
 func (m *LeafList) setDefaultValue(d interface{}) {
@@ -2363,7 +2364,8 @@ func (m *Refine) HasDefault() bool {
 }
 
 func (m *Refine) DefaultValue() interface{} {
-	return m.Default()
+	// a copy: the value is handed to data, the schema keeps its own
+	return append([]string(nil), m.defaultVals...)
 }
 
 func (m *Refine) setDefaultValue(d interface{}) {
@@ -3490,7 +3492,8 @@ func (m *AddDeviate) HasDefault() bool {
 }
 
 func (m *AddDeviate) DefaultValue() interface{} {
-	return m.Default()
+	// a copy: the value is handed to data, the schema keeps its own
+	return append([]string(nil), m.defaultVals...)
 }
 
 func (m *AddDeviate) setDefaultValue(d interface{}) {
@@ -3615,7 +3618,8 @@ func (m *ReplaceDeviate) HasDefault() bool {
 }
 
 func (m *ReplaceDeviate) DefaultValue() interface{} {
-	return m.Default()
+	// a copy: the value is handed to data, the schema keeps its own
+	return append([]string(nil), m.defaultVals...)
 }
 
 func (m *ReplaceDeviate) setDefaultValue(d interface{}) {
@@ -3701,7 +3705,8 @@ func (m *DeleteDeviate) HasDefault() bool {
 }
 
 func (m *DeleteDeviate) DefaultValue() interface{} {
-	return m.Default()
+	// a copy: the value is handed to data, the schema keeps its own
+	return append([]string(nil), m.defaultVals...)
 }
 
 func (m *DeleteDeviate) setDefaultValue(d interface{}) {
